@@ -297,8 +297,10 @@ class AlternativeEval(ConclusionMixin, EvalContract):
 class UpdateConclusion(LibModel):
     """ConclusionSelector.update_conclusion(output, conclusions) - the callee contract AlternativeEval relies on:
     nothing happens for an empty set; otherwise the projection K of `output` onto the variables of the conclusions is looked
-    up ONCE in the node's concluded-before set for the output's truth value; if it was not seen, `conclusions` is added to the
-    node's own set and K (the same dict) is recorded in the same set; if it was seen nothing changes."""
+    up ONCE in the concluded-before set the node keeps for (the output's truth value, exactly these conclusions) - a binding of
+    the variables of one conclusion says nothing about another conclusion having been drawn; if it was not seen,
+    `conclusions` is added to the node's own set and K (the same dict) is recorded in the same set; if it was seen nothing
+    changes."""
     qual = 'conclusion_selector:ConclusionSelector.update_conclusion'
     cls = 'ConclusionSelector'
     props = ('C12',)
@@ -309,7 +311,24 @@ class UpdateConclusion(LibModel):
     def modenv(self):
         env = base_modenv()
         env['Literal'] = C(Ref('class', 'Literal'))
+        env['frozenset'] = C(Ref('class', 'frozenset'))
         return env
+
+    def new_frozenset(self, eng, st, args, kwargs, node):
+        (o,) = args
+        if not (isinstance(o, Obj) and o.kind == 'givenset'):
+            raise OutOfSubset("frozenset of something else than the given conclusions", node)
+        return [(st, Obj('frozen_given', {}))]
+
+    def new_SeenSet(self, eng, st, args, kwargs, node):
+        return [(st, Obj('fresh_seenset', {}))]
+
+    def obj_seenpair_setdefault(self, eng, st, recv, args, kwargs, node):
+        k, default = args
+        per = (isinstance(k, Tup) and len(k.items) == 2 and isinstance(k.items[1], Obj) and k.items[1].kind == 'frozen_given'
+               and isinstance(default, Obj) and default.kind == 'fresh_seenset')
+        truth = eng.to_z3_bool(eng.truth(st, k.items[0])) if isinstance(k, Tup) and k.items else z3.FreshConst(Z.B, 'key')
+        return [(st, Obj('seenset', {'key': truth, 'per_conclusions': per}))]
 
     def setup(self, eng):
         st = State()
@@ -362,7 +381,8 @@ class UpdateConclusion(LibModel):
 
     def subscript(self, eng, st, recv, k):
         if isinstance(recv, Obj) and recv.kind == 'seenpair':
-            return [(st, Obj('seenset', {'key': eng.to_z3_bool(eng.truth(st, k))}))]
+            # one set per truth value only: not kept per set of conclusions
+            return [(st, Obj('seenset', {'key': eng.to_z3_bool(eng.truth(st, k)), 'per_conclusions': False}))]
         return super().subscript(eng, st, recv, k) if hasattr(super(), 'subscript') else None
 
     def obj_seenset_check(self, eng, st, recv, args, kwargs, node):
@@ -370,6 +390,7 @@ class UpdateConclusion(LibModel):
         st = st.clone()
         seen = z3.FreshConst(Z.B, 'seen')
         st.ghost['seen_calls'] = st.ghost['seen_calls'] + [('check', recv.data['key'], d, seen)]
+        st.ghost['per_conclusions'] = bool(recv.data.get('per_conclusions'))
         return [(st, ZV(seen, 'bool'))]
 
     def obj_seenset_add(self, eng, st, recv, args, kwargs, node):
@@ -408,6 +429,8 @@ class UpdateConclusion(LibModel):
         if checks and shape_ok:
             _, key, d, seen = checks[0]
             eng.oblige(st, "C12/update/looked-up-in-the-set-of-the-outputs-truth-value", key == truth)
+            eng.oblige(st, "C12/update/looked-up-in-the-set-kept-for-exactly-these-conclusions",
+                       z3.BoolVal(bool(st.ghost.get('per_conclusions'))))
             # (the output itself would also do: which variables key the de-duplication is an optimisation the property does
             # not fix; what matters is that the key is made of the output's own bindings)
             eng.oblige(st, "C12/update/key-is-the-output-or-a-projection-of-it",
@@ -425,4 +448,76 @@ class UpdateConclusion(LibModel):
         return {}
 
 
-CONTRACTS = [ExceptIfEval, ElseIfRuleEval, AlternativeEval, UpdateConclusion]
+class SelectorReset(LibModel):
+    """ConclusionSelector._reset_only_my_cache_ - what a conclusion selector concluded belongs to ONE evaluation (C04, C12:
+    the same answer on every evaluation): the reset that An / The run when an evaluation ends performs the base reset of
+    the node (contract ResetOnlyMine) and leaves the node with no concluded-before record at all (an empty mapping, or
+    fresh sets only)."""
+    qual = 'conclusion_selector:ConclusionSelector._reset_only_my_cache_'
+    cls = 'ConclusionSelector'
+    props = ('C04', 'C12', 'C05')
+    modes = ('sound',)
+    trusted = ("super()._reset_only_my_cache_() is SymbolicExpression._reset_only_my_cache_ on the same node (contract "
+               "ResetOnlyMine)",)
+
+    def modenv(self):
+        env = base_modenv()
+        env['super'] = C(Ref('func', 'super'))
+        return env
+
+    def setup(self, eng):
+        st = State()
+        st.fields = init_fields()
+        self.n = z3.Const('self', Z.Node)
+        st.locals['self'] = ZV(self.n, 'node')
+        st.ghost['self'] = self.n
+        st.ghost['base_reset'] = 0
+        st.ghost['record'] = None
+        return [st]
+
+    def new_SeenSet(self, eng, st, args, kwargs, node):
+        if args or kwargs:
+            raise OutOfSubset("SeenSet(...) with arguments", node)
+        return [(st, Obj('seenset', {'fresh': True}))]
+
+    def call(self, eng, st, f, args, kwargs, node):
+        if isinstance(f, C) and f.v == Ref('func', 'super'):
+            return [(st, Obj('super_proxy', {}))]
+        if isinstance(f, Meth) and isinstance(f.recv, Obj) and f.recv.kind == 'super_proxy' and f.name == '_reset_only_my_cache_':
+            st = st.clone()
+            st.ghost['base_reset'] += 1
+            return [(st, NONE)]
+        return super().call(eng, st, f, args, kwargs, node)
+
+    def setattr(self, eng, st, recv, name, v):
+        if isinstance(recv, ZV) and recv.ty == 'node' and recv.t.eq(self.n) and name == 'concluded_before':
+            st = st.clone()
+            st.ghost['record'] = v
+            return [st]
+        return super().setattr(eng, st, recv, name, v)
+
+    def on_exit(self, eng, o):
+        st = o.st
+        if o.sig not in (NEXT, RETURN):
+            eng.oblige(st, "C04/selector-reset/no-exception", z3.BoolVal(False))
+            return
+        # the class constant the else-if reads before it replays its right operand from the result cache (contract
+        # ElseIfCacheWrite): every conclusion selector class says that it selects conclusions
+        sel = [c for c in self.src.subclasses('ConclusionSelector')]
+        eng.oblige(st, "C12/selector-classes-declare-that-they-select-conclusions",
+                   z3.BoolVal(bool(sel) and all(self.src.class_constant(c, '_selects_conclusions_') == (True, True) for c in sel)))
+        eng.oblige(st, "C04/selector-reset/the-base-reset-runs", z3.BoolVal(st.ghost['base_reset'] >= 1))
+        r = st.ghost['record']
+        if isinstance(r, D):
+            eng.oblige(st, "C04/selector-reset/nothing-concluded-before-is-remembered", st.dicts[r.ref].is_empty())
+        else:
+            fresh = (isinstance(r, Obj) and r.kind == 'pydict' and
+                     all(isinstance(v, Obj) and v.kind == 'seenset' and v.data.get('fresh') for _, v in r.data['items']) and
+                     len({id(v) for _, v in r.data['items']}) == len(r.data['items']))
+            eng.oblige(st, "C04/selector-reset/nothing-concluded-before-is-remembered", z3.BoolVal(bool(fresh)))
+
+    def signature(self, ob, model):
+        return {}
+
+
+CONTRACTS = [ExceptIfEval, ElseIfRuleEval, AlternativeEval, UpdateConclusion, SelectorReset]
